@@ -22,17 +22,29 @@ fn span_at(cx: &Ctx, enter_pos: usize) -> usize {
     cx.ix.span_of_enter[enter_pos].unwrap()
 }
 
-/// first probe subscription of the scenario (single-operator profiles attach probe 0 once)
-fn the_sub<'a>(cx: &'a Ctx) -> Option<&'a SubInfo> {
-    cx.subs.first()
+/// the probe subscription under judgement (the models are evaluated once per subscription of the output)
+fn the_sub<'a>(cx: &'a Ctx, si: usize) -> Option<&'a SubInfo> {
+    cx.subs.get(si)
+}
+
+/// runs a per-subscription model over every subscription of the scenario
+fn per_sub(cx: &Ctx, f: impl Fn(&Ctx, usize) -> Vec<Finding>) -> Vec<Finding> {
+    let mut out = vec![];
+    for si in 0..cx.subs.len() {
+        out.extend(f(cx, si));
+        if !out.is_empty() {
+            break;
+        }
+    }
+    out
 }
 
 fn down_events<'a>(cx: &'a Ctx, s: &SubInfo) -> Vec<&'a EdgeEv> {
     cx.probe_edge(s).iter().filter(|e| e.dir == Dir::Down).collect()
 }
 
-fn only_inst<'a>(cx: &'a Ctx, pup: u8) -> Option<&'a InstInfo> {
-    cx.insts.iter().find(|i| i.pup == pup)
+fn only_inst<'a>(cx: &'a Ctx, pup: u8, si: usize) -> Option<&'a InstInfo> {
+    cx.insts.iter().find(|i| i.pup == pup && i.sub == Some(si))
 }
 
 /// Pull spans received by puppets, each charged to the innermost enclosing span accepted by `cause`.
@@ -74,6 +86,10 @@ pub fn unary_model(t: &Topo, u: &[i64]) -> Vec<(usize, i64)> {
 }
 
 pub fn c07(cx: &Ctx) -> Vec<Finding> {
+    per_sub(cx, c07_for)
+}
+
+fn c07_for(cx: &Ctx, si: usize) -> Vec<Finding> {
     let mut out = vec![];
     let t = &cx.sc.topo;
     let child_pup = match t {
@@ -84,8 +100,8 @@ pub fn c07(cx: &Ctx) -> Vec<Finding> {
         _ => return out,
     };
     let op = t.op_name();
-    let Some(sub) = the_sub(cx) else { return out };
-    let Some(inst) = only_inst(cx, child_pup) else { return out };
+    let Some(sub) = the_sub(cx, si) else { return out };
+    let Some(inst) = only_inst(cx, child_pup, si) else { return out };
     // walk the history in order, maintaining U and the data the probe has received
     let mut u: Vec<i64> = vec![];
     let mut u_span: Vec<usize> = vec![];
@@ -242,7 +258,7 @@ pub fn c07(cx: &Ctx) -> Vec<Finding> {
 
 pub fn nt_c07(cx: &Ctx) -> bool {
     let t = &cx.sc.topo;
-    let Some(sub) = the_sub(cx) else { return false };
+    let Some(sub) = the_sub(cx, 0) else { return false };
     let vals: Vec<i64> = cx
         .insts
         .iter()
@@ -268,7 +284,7 @@ struct Members<'a> {
     pups: Vec<u8>,
 }
 
-fn members<'a>(cx: &'a Ctx, ts: &[Topo]) -> Option<Members<'a>> {
+fn members<'a>(cx: &'a Ctx, ts: &[Topo], si: usize) -> Option<Members<'a>> {
     let mut pups = vec![];
     for t in ts {
         match t {
@@ -276,16 +292,19 @@ fn members<'a>(cx: &'a Ctx, ts: &[Topo]) -> Option<Members<'a>> {
             _ => return None,
         }
     }
-    let insts = pups.iter().map(|p| only_inst(cx, *p)).collect();
+    let insts = pups.iter().map(|p| only_inst(cx, *p, si)).collect();
     Some(Members { insts, pups })
 }
 
 /// every member that is greeted and live both at the start and at the end of a sink Pull receives
 /// exactly one Pull charged to that extent; no member receives more than one; no Pull is spontaneous
-fn pull_broadcast(cx: &Ctx, prop: &'static str, op: &str, ms: &Members, out: &mut Vec<Finding>) {
+fn pull_broadcast(cx: &Ctx, prop: &'static str, op: &str, ms: &Members, sub: &SubInfo, out: &mut Vec<Finding>) {
     let charged = pulls_by_cause(cx, is_sink_pull);
+    let mine = |span: usize| {
+        matches!(&cx.ix.spans[span].site, Site::PupRecv { pup, inst, .. } if ms.insts.iter().flatten().any(|i| i.pup == *pup && i.inst == *inst))
+    };
     for (p, c) in &charged {
-        if c.is_none() {
+        if c.is_none() && mine(*p) {
             out.push(finding(
                 prop,
                 format!("{prop}:spontaneous-pull({op})"),
@@ -295,7 +314,7 @@ fn pull_broadcast(cx: &Ctx, prop: &'static str, op: &str, ms: &Members, out: &mu
         }
     }
     for (xi, x) in cx.ix.spans.iter().enumerate() {
-        if !is_sink_pull(x) {
+        if !matches!(&x.site, Site::SinkSend { msg: M::Pull, sink, sub: k } if *sink == sub.sink && *k == sub.sub) {
             continue;
         }
         if x.end >= cx.h.log.len() {
@@ -310,12 +329,14 @@ fn pull_broadcast(cx: &Ctx, prop: &'static str, op: &str, ms: &Members, out: &mu
                 })
                 .count();
             let stable = inst.live_at(x.start) && inst.live_at(x.end);
-            if n > 1 || (stable && n != 1) {
+            // a member that had completed (or been terminated) before the Pull began must not get it
+            let gone_before = inst.greeted_at.map_or(false, |g| g < x.start) && !inst.live_at(x.start);
+            if n > 1 || (stable && n != 1) || (gone_before && n != 0) {
                 out.push(finding(
                     prop,
                     format!("{prop}:pull-fanout({op})"),
                     format!(
-                        "sink Pull at #{}: member p{}.{} received {n} Pulls (live throughout: {stable})",
+                        "sink Pull at #{}: member p{}.{} received {n} Pulls (live throughout: {stable}, gone before: {gone_before})",
                         x.start, inst.pup, inst.inst
                     ),
                     x.start,
@@ -328,10 +349,14 @@ fn pull_broadcast(cx: &Ctx, prop: &'static str, op: &str, ms: &Members, out: &mu
 // =================================================================== C08 merge
 
 pub fn c08(cx: &Ctx) -> Vec<Finding> {
+    per_sub(cx, c08_for)
+}
+
+fn c08_for(cx: &Ctx, si: usize) -> Vec<Finding> {
     let mut out = vec![];
     let Topo::Merge(ts) = &cx.sc.topo else { return out };
-    let Some(ms) = members(cx, ts) else { return out };
-    let Some(sub) = the_sub(cx) else { return out };
+    let Some(ms) = members(cx, ts, si) else { return out };
+    let Some(sub) = the_sub(cx, si) else { return out };
     let truncated = !cx.h.panics().is_empty();
     // greeting: inside the first member greeting
     let first_greet = ms.insts.iter().flatten().filter_map(|i| i.greeted_at).min();
@@ -386,7 +411,7 @@ pub fn c08(cx: &Ctx) -> Vec<Finding> {
             out.push(finding("C08", "C08:datum-not-relayed-synchronously", format!("datum {} was not delivered during its member's send", g.1), g.0));
         }
     }
-    pull_broadcast(cx, "C08", "merge", &ms, &mut out);
+    pull_broadcast(cx, "C08", "merge", &ms, sub, &mut out);
     // completion: exactly once, inside the completion of the last of all n members
     let all_done = ms.insts.iter().all(|i| {
         i.map_or(false, |i| matches!(&i.ended_at, Some((e, M::Terminate)) if sub.live_at(*e)))
@@ -423,10 +448,14 @@ pub fn nt_c08(cx: &Ctx) -> bool {
 // =================================================================== C09 concat
 
 pub fn c09(cx: &Ctx) -> Vec<Finding> {
+    per_sub(cx, c09_for)
+}
+
+fn c09_for(cx: &Ctx, si: usize) -> Vec<Finding> {
     let mut out = vec![];
     let Topo::Concat(ts) = &cx.sc.topo else { return out };
-    let Some(ms) = members(cx, ts) else { return out };
-    let Some(sub) = the_sub(cx) else { return out };
+    let Some(ms) = members(cx, ts, si) else { return out };
+    let Some(sub) = the_sub(cx, si) else { return out };
     let truncated = !cx.h.panics().is_empty();
     let n = ms.pups.len();
     // subscription timing
@@ -566,10 +595,17 @@ pub fn nt_c09(cx: &Ctx) -> bool {
 // =================================================================== C10 combine
 
 pub fn c10(cx: &Ctx) -> Vec<Finding> {
+    per_sub(cx, c10_for)
+}
+
+fn c10_for(cx: &Ctx, si: usize) -> Vec<Finding> {
     let mut out = vec![];
     let Topo::Combine(ts) = &cx.sc.topo else { return out };
-    let Some(ms) = members(cx, ts) else { return out };
-    let Some(sub) = the_sub(cx) else { return out };
+    if !cx.sc.root_tuple {
+        return out; // the tuple is packed into one i64 by a map stage: not this model's shape
+    }
+    let Some(ms) = members(cx, ts, si) else { return out };
+    let Some(sub) = the_sub(cx, si) else { return out };
     let truncated = !cx.h.panics().is_empty();
     let n = ms.pups.len();
     // the verdict stops at the first member Error (C05 / D6 territory)
@@ -653,7 +689,7 @@ pub fn c10(cx: &Ctx) -> Vec<Finding> {
         }
     }
     if horizon == usize::MAX {
-        pull_broadcast(cx, "C10", "combine", &ms, &mut out);
+        pull_broadcast(cx, "C10", "combine", &ms, sub, &mut out);
         let all_done = ms.insts.iter().all(|i| {
             i.map_or(false, |i| matches!(&i.ended_at, Some((e, M::Terminate)) if sub.live_at(*e)))
         });
@@ -675,7 +711,7 @@ pub fn c10(cx: &Ctx) -> Vec<Finding> {
 
 pub fn nt_c10(cx: &Ctx) -> bool {
     let Topo::Combine(ts) = &cx.sc.topo else { return false };
-    let Some(sub) = the_sub(cx) else { return false };
+    let Some(sub) = the_sub(cx, 0) else { return false };
     let tuples = down_events(cx, sub).into_iter().filter(|e| e.msg.is_data()).count();
     ts.len() >= 1 && tuples >= 2
 }
@@ -683,6 +719,10 @@ pub fn nt_c10(cx: &Ctx) -> bool {
 // =================================================================== C11 flatten
 
 pub fn c11(cx: &Ctx) -> Vec<Finding> {
+    per_sub(cx, c11_for)
+}
+
+fn c11_for(cx: &Ctx, si: usize) -> Vec<Finding> {
     let mut out = vec![];
     let Topo::Flatten { outer, inners } = &cx.sc.topo else { return out };
     let inner_pups: Vec<u8> = inners
@@ -692,8 +732,8 @@ pub fn c11(cx: &Ctx) -> Vec<Finding> {
     if inner_pups.len() != inners.len() {
         return out;
     }
-    let Some(sub) = the_sub(cx) else { return out };
-    let Some(oinst) = only_inst(cx, *outer) else { return out };
+    let Some(sub) = the_sub(cx, si) else { return out };
+    let Some(oinst) = only_inst(cx, *outer, si) else { return out };
     let truncated = !cx.h.panics().is_empty();
     let unfinished = |span: usize| truncated && cx.ix.spans[span].end >= cx.h.log.len();
 
@@ -852,7 +892,7 @@ pub fn c11(cx: &Ctx) -> Vec<Finding> {
             || matches!(&s.site, Site::PupSend { msg: M::Terminate, pup, .. } if is_inner(*pup))
     });
     for (xi, x) in cx.ix.spans.iter().enumerate() {
-        if !is_sink_pull(x) || unfinished(xi) {
+        if !matches!(&x.site, Site::SinkSend { msg: M::Pull, sink, sub: k } if *sink == sub.sink && *k == sub.sub) || unfinished(xi) {
             continue;
         }
         let (oa, cur, ov) = state_at(x.start);
@@ -884,7 +924,8 @@ pub fn c11(cx: &Ctx) -> Vec<Finding> {
         }
     }
     for (p, c) in &causes {
-        if c.is_none() {
+        let mine = matches!(&cx.ix.spans[*p].site, Site::PupRecv { pup, inst, .. } if cx.inst(*pup, *inst).map_or(false, |i| i.sub == Some(si)));
+        if c.is_none() && mine {
             out.push(finding("C11", "C11:spontaneous-pull", format!("{} has no cause", cx.ix.spans[*p].site.short()), cx.ix.spans[*p].start));
         }
     }
